@@ -88,8 +88,11 @@ func TestVerifReplayC12(t *testing.T) {
 		}
 		// make next valid now so that the following call promotes it and mints a new next
 		r1.Next.NotBefore = timestamppb.New(time.Now().Add(-time.Minute))
-		if err := r1.Store(ctx, st2, wopt); err != nil {
+		if err := r1.Store(ctx, st2, wopt, nodeenrollment.WithState(state)); err != nil {
 			t.Fatal(err)
+		}
+		if chk, err := types.LoadRootCertificates(ctx, st2, wopt); err != nil || chk.State == nil {
+			t.Fatalf("setup: stored roots carry no state (%v)", err)
 		}
 		r2, err := rotation.RotateRootCertificates(ctx, st2, wopt)
 		if err != nil {
